@@ -210,8 +210,9 @@ func New(b Bounds) bfs.System {
 	s.now = f.cp.TimeOf(9).Add(time.Second)
 	s.ctx = f.h.Ctx(s.now)
 	k := f.h.C.App.XIBCKeeper.ClientKeeper
-	k.RegisterRelayers(s.ctx, f.relayer.Acc.String(), []string{Name}, []string{"x"})
-	k.RegisterRelayers(s.ctx, f.tssAcc.Acc.String(), []string{Name}, []string{"y"})
+	// (the authorised accounts relay for other chains as well: authorisation must not depend on being registered for one chain only)
+	k.RegisterRelayers(s.ctx, f.relayer.Acc.String(), []string{"another-chain", Name, otherName}, []string{"w", "x", "v"})
+	k.RegisterRelayers(s.ctx, f.tssAcc.Acc.String(), []string{Name, "another-chain"}, []string{"y", "z"})
 	// a bystander: another chain's client whose name merely starts with the same characters; nothing done to cp-chain may touch it
 	ocs, ocons := f.kits["tm"].install(0)
 	if err := k.CreateClient(s.ctx, Name+"-2", ocs, ocons); err != nil {
